@@ -20,7 +20,7 @@ CASE_TIMEOUT = {'quick': 25, 'thorough': 120}
 
 
 def floors(tier):
-    return {'distinct_nontrivial': 1000 if tier == 'quick' else 15000, 'inverse_returned': 700, 'two_sided_checked': 700,
+    return {'distinct_nontrivial': 1000 if tier == 'quick' else 80000, 'inverse_returned': 700, 'two_sided_checked': 700,
             'singular_operands_seen': 40, 'zerodivision_checked_against_oracle': 40, 'division_checked': 300,
             'number_over_x_checked': 150, 'negative_power_checked': 150, 'd5_closed_form_cases': 40, 'd6plus_iterative_cases': 30,
             'padded_or_permuted_layouts': 300}
@@ -52,19 +52,19 @@ def plan(tier, seed):
         nshards = 16
     else:
         for c in gen.sig_orderings(1, 2):
-            U += u(c, 150, 4, True)
+            U += u(c, 900, 4, True)
         for c in gen.sig_orderings(3, 3):
-            U += u(c, 100, 8, True)
+            U += u(c, 600, 8, True)
         for c in gen.sig_orderings(4, 4):
-            U += u(c, 40, 8)
+            U += u(c, 240, 8)
         for c in gen.pqr_all(5, 5):
-            U += u(c, 60, 4)
+            U += u(c, 400, 4)
         for c in gen.pqr_all(6, 6)[::2]:
-            U += u(c, 30, 3)
-        for c in rng.sample(gen.pqr_all(7, 7), 8):
-            U += u(c, 8, 3)
-        for _ in range(80):
-            U += u(gen.random_custom_cfg(rng, rng.choice((2, 3, 3, 4, 4, 5))), 40, 5)
+            U += u(c, 120, 3)
+        for c in rng.sample(gen.pqr_all(7, 7), 16):
+            U += u(c, 12, 3)
+        for _ in range(300):
+            U += u(gen.random_custom_cfg(rng, rng.choice((2, 3, 3, 4, 4, 5))), 120, 5)
         for c in gen.NAMED:
             U += u(c, 60, 4)
         nshards = 64
